@@ -395,15 +395,19 @@ class Session:
     def __init__(self, bdir, seed=1, relay=None, nclients=1, qtype="NULL", downenc=None, lazy=1,
                  maxlen=None, fragsize=None, raw=False, interval=None, server_args=(), netbits=24,
                  password=PASSWORD, domain=DOMAIN, tag="s", client_pw=None, dump_users=False,
-                 server_domain=None, occupy=0, prior=False, hs_tun=0):
+                 server_domain=None, occupy=0, prior=False, hs_tun=0, pw_via="arg"):
         self.relay = relay or Relay(seed)
         self.w = W.World(bdir, seed=seed, policy=self.relay, tag=tag)
         self.w.dump_users = dump_users
         self.domain = domain
         self.server_ip = TUN_NET + ".1"
-        sargs = ["-f", "-4", "-P", password] + list(server_args) + \
+        # pw_via: how the programs are given the password - "arg" (-P), "env" (IODINE_PASS / IODINED_PASS), "cenv" / "senv"
+        # (only the client / only the server from the environment)
+        senv = pw_via in ("env", "senv")
+        cenv = pw_via in ("env", "cenv")
+        sargs = ["-f", "-4"] + ([] if senv else ["-P", password]) + list(server_args) + \
             ["%s/%d" % (self.server_ip, netbits), server_domain or domain]
-        self.w.spawn("S", "S", sargs)
+        self.w.spawn("S", "S", sargs, env={"IODINED_PASS": password} if senv else None)
         # other peers that only opened a session (version request) before our clients start: the clients then get the
         # higher slots (userid 10..15 is a LETTER in every data query name)
         for k in range(occupy):
@@ -423,7 +427,7 @@ class Session:
         self.cfg = dict(qtype=qtype, downenc=downenc, lazy=lazy, maxlen=maxlen, fragsize=fragsize,
                         raw=raw, interval=interval)
         for k in range(nclients):
-            cargs = ["-f", "-P", client_pw or password]
+            cargs = ["-f"] + ([] if cenv else ["-P", client_pw or password])
             if not raw:
                 cargs.append("-r")
             if qtype:
@@ -440,7 +444,7 @@ class Session:
                 cargs += ["-I", str(interval)]
             cargs += [W.SERVER_IP, domain]
             name = "C%d" % k
-            self.w.spawn(name, name, cargs)
+            self.w.spawn(name, name, cargs, env={"IODINE_PASS": client_pw or password} if cenv else None)
             self.clients.append(name)
 
     def _prior_session(self, password, domain, opt):
